@@ -125,6 +125,13 @@ theorem relInv_push {types : List (Name × Definition)} {rel : Rel} {k : Name} {
     RelInv types (pushKV k e rel) :=
   pushKV_inv (P := fun k => (types.lookup k).isSome) (Q := fun e => ∃ n, e = some n ∧ (types.lookup n).isSome) h hk he
 
+theorem relInv_pushPtr {types : List (Name × Definition)} {rel : Rel} {k : Name} {e : Option Name}
+    (h : RelInv types rel) (hk : (types.lookup k).isSome) (he : ∀ n, e = some n → (types.lookup n).isSome) :
+    RelInv types (pushPtr k e rel) := by
+  cases e with
+  | none => exact h
+  | some n => exact relInv_push h hk ⟨n, rfl, he n rfl⟩
+
 theorem ptrOf_ok {types : List (Name × Definition)} (hinv : KeysInv (·.name) types) {x : Name}
     (hx : (types.lookup x).isSome) : ∃ n, ptrOf types x = some n ∧ (types.lookup n).isSome := by
   cases hl : types.lookup x with
@@ -133,48 +140,70 @@ theorem ptrOf_ok {types : List (Name × Definition)} (hinv : KeysInv (·.name) t
     have hname : d.name = x := hinv.2 (x, d) (mem_of_lookup hl)
     exact ⟨d.name, by simp [ptrOf, hl], by rw [hname]; exact hx⟩
 
+/-- whatever `schema.Types[x]` points to is itself a key of the type map -/
+theorem ptrOf_resolves {types : List (Name × Definition)} (hinv : KeysInv (·.name) types) {x n : Name}
+    (h : ptrOf types x = some n) : (types.lookup n).isSome := by
+  cases hl : types.lookup x with
+  | none => simp [ptrOf, hl] at h
+  | some d =>
+    have hname : d.name = x := hinv.2 (x, d) (mem_of_lookup hl)
+    simp only [ptrOf, hl, Option.map_some, Option.some.injEq] at h
+    rw [← h, hname, hl]; rfl
+
 /-- what the relation construction needs of one definition -/
 def RefsResolve (types : List (Name × Definition)) (d : Definition) : Prop :=
   (types.lookup d.name).isSome ∧ (∀ i ∈ d.interfaces, (types.lookup i).isSome) ∧ (∀ m ∈ d.types, (types.lookup m).isSome)
+
+/-- an invariant of both relations is kept by the fold over the interface list -/
+theorem interfaces_fold_inv (I : Rel × Rel → Prop) (types : List (Name × Definition)) (d : Definition)
+    (hstep : ∀ p i intf, intf ∈ d.interfaces → I (p, i) →
+      I (pushKV intf (some d.name) p, pushPtr d.name (ptrOf types intf) i)) (pi : Rel × Rel) (h : I pi) :
+    I (d.interfaces.foldl (fun (x : Rel × Rel) intf =>
+        match x with
+        | (p, i) => (pushKV intf (some d.name) p, pushPtr d.name (ptrOf types intf) i)) pi) := by
+  apply foldl_inv I
+  · exact h
+  · intro s x hx hs
+    obtain ⟨p, i⟩ := s
+    exact hstep p i x hx hs
+
+/-- an invariant of both relations is kept by `relateDef` when every push keeps it -/
+theorem relateDef_induct (I : Rel × Rel → Prop) (types : List (Name × Definition)) (d : Definition)
+    (hunion : ∀ p i t, t ∈ d.types → I (p, i) → I (pushPtr d.name (ptrOf types t) p, pushKV t (some d.name) i))
+    (hintf : ∀ p i intf, intf ∈ d.interfaces → I (p, i) →
+      I (pushKV intf (some d.name) p, pushPtr d.name (ptrOf types intf) i))
+    (hself : ∀ p i, I (p, i) → I (pushKV d.name (some d.name) p, i))
+    (pi : Rel × Rel) (h : I pi) : I (relateDef types d pi) := by
+  unfold relateDef
+  split
+  · apply foldl_inv I
+    · exact h
+    · intro s x hx hs
+      obtain ⟨p, i⟩ := s
+      exact hunion p i x hx hs
+  · have := interfaces_fold_inv I types d hintf pi h
+    revert this
+    generalize (d.interfaces.foldl _ pi) = q
+    obtain ⟨p, i⟩ := q
+    intro this
+    exact hself p i this
+  · exact interfaces_fold_inv I types d hintf pi h
+  · exact h
+  · exact h
+  · exact h
 
 theorem relateDef_inv {types : List (Name × Definition)} (hinv : KeysInv (·.name) types) {d : Definition}
     (hd : RefsResolve types d) {pi : Rel × Rel} (h : RelInv types pi.1 ∧ RelInv types pi.2) :
     RelInv types (relateDef types d pi).1 ∧ RelInv types (relateDef types d pi).2 := by
   obtain ⟨hname, hintf, hmem⟩ := hd
   have hself : ∃ n, some d.name = some n ∧ (types.lookup n).isSome := ⟨d.name, rfl, hname⟩
-  have hI : ∀ (pi : Rel × Rel), (RelInv types pi.1 ∧ RelInv types pi.2) →
-      (fun (q : Rel × Rel) => RelInv types q.1 ∧ RelInv types q.2)
-        (d.interfaces.foldl (fun (x : Rel × Rel) intf =>
-          match x with
-          | (p, i) => (pushKV intf (some d.name) p, pushKV d.name (ptrOf types intf) i)) pi) := by
-    intro pi hpi
-    apply foldl_inv (fun (q : Rel × Rel) => RelInv types q.1 ∧ RelInv types q.2)
-    · exact hpi
-    · intro s x hx hs
-      obtain ⟨p, i⟩ := s
-      exact ⟨relInv_push hs.1 (hintf x hx) hself, relInv_push hs.2 hname (ptrOf_ok hinv (hintf x hx))⟩
-  unfold relateDef
-  split
-  · apply foldl_inv (fun (q : Rel × Rel) => RelInv types q.1 ∧ RelInv types q.2)
-    · exact h
-    · intro s x hx hs
-      obtain ⟨p, i⟩ := s
-      exact ⟨relInv_push hs.1 hname (ptrOf_ok hinv (hmem x hx)), relInv_push hs.2 (hmem x hx) hself⟩
-  · have := hI pi h
-    revert this
-    generalize (d.interfaces.foldl _ pi) = q
-    obtain ⟨p, i⟩ := q
-    intro this
-    exact ⟨relInv_push this.1 hname hself, this.2⟩
-  · have := hI pi h
-    revert this
-    generalize (d.interfaces.foldl _ pi) = q
-    obtain ⟨p, i⟩ := q
-    intro this
-    exact ⟨relInv_push this.1 hname hself, this.2⟩
-  · exact hI pi h
-  · exact h
-  · exact h
+  apply relateDef_induct (fun q => RelInv types q.1 ∧ RelInv types q.2) types d _ _ _ pi h
+  · intro p i t ht hs
+    exact ⟨relInv_pushPtr hs.1 hname (fun n hn => ptrOf_resolves hinv hn), relInv_push hs.2 (hmem t ht) hself⟩
+  · intro p i x hx hs
+    exact ⟨relInv_push hs.1 (hintf x hx) hself, relInv_pushPtr hs.2 hname (fun n hn => ptrOf_resolves hinv hn)⟩
+  · intro p i hs
+    exact ⟨relInv_push hs.1 hname hself, hs.2⟩
 
 theorem buildRelations_inv {types : List (Name × Definition)} (hinv : KeysInv (·.name) types)
     (hrefs : ∀ p ∈ types, RefsResolve types p.2) :
@@ -186,5 +215,36 @@ theorem buildRelations_inv {types : List (Name × Definition)} (hinv : KeysInv (
     simp only [List.mem_map] at hd
     obtain ⟨p, hp, rfl⟩ := hd
     exact relateDef_inv hinv (hrefs p hp) hs
+
+/- ---------------- no nil entries, unconditionally (the repaired loader) ---------------- -/
+
+/-- no nil entry in a relation -/
+def NoNil (rel : Rel) : Prop := ∀ p ∈ rel, ∀ e ∈ p.2, e ≠ none
+
+theorem noNil_pushKV {rel : Rel} {k n : Name} (h : NoNil rel) : NoNil (pushKV k (some n) rel) := by
+  have := pushKV_inv (P := fun _ => True) (Q := fun (e : Option Name) => e ≠ none) (k := k) (v := some n) (l := rel)
+    (fun p hp => ⟨trivial, h p hp⟩) trivial (by simp)
+  exact fun p hp => (this p hp).2
+
+theorem noNil_pushPtr {rel : Rel} {k : Name} {e : Option Name} (h : NoNil rel) : NoNil (pushPtr k e rel) := by
+  cases e with
+  | none => exact h
+  | some n => exact noNil_pushKV h
+
+theorem relateDef_noNil (types : List (Name × Definition)) (d : Definition) {pi : Rel × Rel}
+    (h : NoNil pi.1 ∧ NoNil pi.2) : NoNil (relateDef types d pi).1 ∧ NoNil (relateDef types d pi).2 := by
+  apply relateDef_induct (fun q => NoNil q.1 ∧ NoNil q.2) types d _ _ _ pi h
+  · intro p i t _ hs; exact ⟨noNil_pushPtr hs.1, noNil_pushKV hs.2⟩
+  · intro p i x _ hs; exact ⟨noNil_pushKV hs.1, noNil_pushPtr hs.2⟩
+  · intro p i hs; exact ⟨noNil_pushKV hs.1, hs.2⟩
+
+/-- **no nil entry is ever stored** in `PossibleTypes` / `Implements`, whatever the document -/
+theorem buildRelations_noNil (types : List (Name × Definition)) :
+    NoNil (buildRelations types).1 ∧ NoNil (buildRelations types).2 := by
+  unfold buildRelations
+  apply foldl_inv (fun (q : Rel × Rel) => NoNil q.1 ∧ NoNil q.2)
+  · simp [NoNil]
+  · intro s d _ hs
+    exact relateDef_noNil types d hs
 
 end Gql.Load
